@@ -1246,10 +1246,6 @@ func checkAlloc(c *checkCtx) {
 		}
 		c.violation(fmt.Sprintf("alloc-%d", cs.Idx), witness, "%s", res.viol[0])
 	}
-	if c.tier == "replay" {
-		// replay: re-run the recorded case 20 times
-		return
-	}
 	for i := 0; i < nR1; i++ {
 		cs := genAllocCase(c, idx, "R1", false)
 		idx++
